@@ -4,7 +4,7 @@ EXTENDS Client
 CONSTANTS MaxConn, MaxSteps
 VARIABLE k
 mvars == <<c, k>>
-MInit == CInit /\ k = 0
+MInit == (\E h \in {"none", "start", "api"} : CInitH(h)) /\ k = 0
 Step(S) == /\ k < MaxSteps /\ k' = k + 1 /\ c' \in S
 MNext ==
   \/ N(c) < MaxConn /\ Step(UserStart(c))
